@@ -1,7 +1,7 @@
 #!/venv/bin/python
 """Verify the behaviour-preserving changes a sub-agent left in /tmp/wt5_<prop>/SEED and import the confirmed ones into /verif/benign/.
 
-  SEED_WT_PREFIX=/tmp/wt5_ selftest/import_benign.py C05 [C04 ...]
+  SEED_WT_PREFIX=/tmp/wt5_ [BENIGN_OFFSET=4] selftest/import_benign.py C05 [C04 ...]
 
 For every patch<k>.diff: run demo<k>.py on the unchanged scratch worktree (digest = last line of stdout), apply the patch, run the
 pinned test suite, run the demo again, revert.  A change is kept only if the suite passes with it, both demo runs exit 0 and the two
@@ -53,7 +53,7 @@ def main():
             ok = "383 passed" in outt and rc0 == 0 and rc1 == 0 and d0 == d1 and len(d0) >= 16
             print(prop, k, "KEEP" if ok else "DROP", f"tests='{outt.strip()[-30:]}' rc={rc0}/{rc1} digest_equal={d0 == d1}")
             if ok:
-                dst = os.path.join(VERIF, "benign", f"{prop}-b{k}")
+                dst = os.path.join(VERIF, "benign", f"{prop}-b{k + int(os.environ.get('BENIGN_OFFSET', '0'))}")
                 os.makedirs(dst, exist_ok=True)
                 shutil.copy(patch, os.path.join(dst, "patch.diff"))
                 shutil.copy(demo, os.path.join(dst, "demo.py"))
